@@ -21,6 +21,28 @@ def _retry(f, *a):
             time.sleep(2)
     return f(*a)
 
+T_IMPL = [20]     # seconds per run of a harness; shortened once the implementation was seen to hang
+
+
+def _cmp(model, exe, lines):
+    """D.compare with a short time limit for the implementation (a hang is a result, not a reason to wait 2 minutes
+    per shrinking step)"""
+    rc_c, out_c, err_c = D.run_lines([exe], lines, timeout=T_IMPL[0])
+    if rc_c == -999:
+        T_IMPL[0] = 6
+        return {"kind": "impl-crash", "rc": rc_c, "stderr": "the implementation did not finish within the time limit (hang)",
+                "impl_out_tail": out_c[-5:]}
+    rc_m, out_m, err_m = _retry(D.model_lines, model, lines)
+    if rc_m != 0:
+        return {"kind": "model-driver-failed", "rc": rc_m, "stderr": err_m[-2000:]}
+    if rc_c != 0:
+        return {"kind": "impl-crash", "rc": rc_c, "stderr": err_c[-3000:], "impl_out_tail": out_c[-5:]}
+    d = D.first_diff(out_c, out_m)
+    if d is None:
+        return None
+    return {"kind": "output-differs", "line": d[0], "impl": d[1], "model": d[2]}
+
+
 ASSUMPTIONS = [
     "user pools keep the contract of abt.h: create_unit returns ABT_UNIT_NULL or a handle with bit 0 clear that no OTHER work unit currently uses as unit (in any user pool: the table is global); different pools may hand out the same handle for the same work unit (e.g. its ABT_thread handle) - covered: unitmap_remap_same_unit, Legal in Proofs/Assoc, twin pools 5/6 of the API harness, remap ops of the white-box harness; free_unit/push/pop are only observed, not modelled",
     "duplicates in the table are modelled only in the form abti_unit.h can produce: map(u,t) while u->t is mapped, followed by one unmap(u); the table is not claimed to be a general multimap (two different work units under one handle)",
@@ -469,7 +491,7 @@ def run_diff(res, what, model, exe, gen, oracle, rounds, nops, rng, hist, sample
         total += len(lines)
         if r == 0:
             res.sample({samplekey: lines[:12]})
-        d = _retry(D.compare, model, exe, lines)
+        d = _cmp(model, exe, lines)
         if d is None:
             continue
 
@@ -498,7 +520,12 @@ def run_diff(res, what, model, exe, gen, oracle, rounds, nops, rng, hist, sample
             return True
 
         def judge(ls):
-            rc, oc, er = D.run_lines([exe], ls)
+            rc, oc, er = D.run_lines([exe], ls, timeout=T_IMPL[0])
+            if rc == -999:
+                T_IMPL[0] = 6
+                done = len([x for x in oc if x])
+                return ("the implementation hangs (no answer within the time limit) in `%s` (line %d)"
+                        % (ls[done] if done < len(ls) else "?", done))
             if rc != 0:
                 if model == "unitmap":
                     return crash_unitmap(ls, oc, er)
@@ -508,14 +535,15 @@ def run_diff(res, what, model, exe, gen, oracle, rounds, nops, rng, hist, sample
         def violates(ls):
             return judge(ls) is not None
         keep = 1 if model == "unitmap" else 0
+        budget = 40 if d.get("rc") == -999 else 300
         if violates(lines):
             # the implementation's own output contradicts the property: shrink towards that
-            small = D.ddmin(lines, lambda ls: legal(ls) and violates(ls), keep_prefix=keep, budget=300)
+            small = D.ddmin(lines, lambda ls: legal(ls) and violates(ls), keep_prefix=keep, budget=budget)
         else:
-            small = D.ddmin(lines, lambda ls: legal(ls) and _retry(D.compare, model, exe, ls) is not None,
-                            keep_prefix=keep, budget=300)
-        d2 = _retry(D.compare, model, exe, small) or d
-        rc, out_c, err = D.run_lines([exe], small)
+            small = D.ddmin(lines, lambda ls: legal(ls) and _cmp(model, exe, ls) is not None,
+                            keep_prefix=keep, budget=budget)
+        d2 = _cmp(model, exe, small) or d
+        rc, out_c, err = D.run_lines([exe], small, timeout=T_IMPL[0])
         why = judge(small)
         rep = {"correspondence": what, "model": model, "ops": small, "disagreement": d2, "impl_output": out_c[:200],
                "oracle": why}
@@ -597,7 +625,7 @@ def replay(res, path):
             exe, orc = C.cc_harness("wb_unitmap", ["wb_unitmap.c"], "san", extra="-lpthread"), oracle_unitmap
         else:
             exe, orc = C.cc_harness("api_userpool", ["api_userpool.c"], "plain"), oracle_userpool
-        d = _retry(D.compare, model, exe, rep["ops"])
+        d = _cmp(model, exe, rep["ops"])
         rc, out_c, err = D.run_lines([exe], rep["ops"])
         print("disagreement:", d)
         print("oracle:", orc(rep["ops"], out_c) if rc == 0 else err[-500:])
